@@ -33,4 +33,5 @@ def run(prog: Program, col: Collector, tier: str, refs: Optional[Refs] = None, c
     algebra.r_seeds(prog, col, refs, cat, "R02.5")
     algebra.r_pushdown(prog, col, refs, cat, "R02.6")
     algebra.r_same_op(prog, col, refs, cat, "R02.7")
+    algebra.r_operand_multiplicity(prog, col, refs, cat, "R02.8")
     return col
